@@ -966,7 +966,13 @@ class Field:
 
     # anything else (only reached by modified code) is answered on the text itself
     def rpartition(self, sep):
-        return self.text.rpartition(sep)
+        if sep != '=' or not self.has_eq:
+            return self.text.rpartition(sep)
+        # the last '=' of name '=' value is the construction's own one iff the value has none
+        h, m, t = self.value.rpartition('=')
+        if isinstance(m, str):
+            return (self.name + '=' + h, '=', t) if m else (self.name, '=', self.value)
+        return (Ite(Len(m) == 0, self.name, self.name + '=' + h), '=', t)
 
     def split(self, *a):
         return self.text.split(*a)
@@ -1617,9 +1623,50 @@ def bounded(tier, seed, overlay_dir):
     return json.loads(p.stdout)
 
 
-ASSUMPTIONS = []
-NOT_DECIDED = []
-TRUSTED = []
+ASSUMPTIONS = [
+    'falcon.util.uri.decode (contract of C10, stubbed as an uninterpreted function): total str -> str, never raises, and is the identity on strings that contain neither "+" nor "%" '
+    '(that is what makes the parser\'s whole-string `is_encoded` shortcut equal to decoding every name and value); what it computes on escapes (UTF-8, malformed escapes kept) is C10 and '
+    'is only compared against an independent reference in the bounded stand-in',
+    'falcon.util.uri.encode_value (C10): a total function str -> str (to_query_str harness); that decode(encode_value(s)) == s is only exercised by the bounded round trip',
+    'int(str) / float(str): raise nothing but ValueError; the result is a function of the string.  Exact on ASCII decimal literals of at most 15 characters (and float("nan") is NaN); '
+    'every other string is accepted or rejected arbitrarily (uninterpreted), so all of Python\'s literal forms (signs, underscores, blanks, Unicode digits, inf, exponents, the 4300 digit limit) are covered',
+    'floats are NaN or a point of a dense total order (only <, <=, == are used by the subject and the contract); min_value / max_value are integers in the float harness',
+    'uuid.UUID(str), datetime.strptime(str, fmt): return a value that is a function of the string, or raise ValueError and nothing else (str input)',
+    'a JSON media handler (C12) returns a document or raises a subclass of HTTPBadRequest (MediaMalformedError / MediaNotFoundError); Handlers._resolve(.., raise_not_found=False) '
+    'returns (handler | None, .., ..)',
+    'a user `transform` returns a value or raises ValueError (any other exception it raises propagates unchanged: outside the statement)',
+    'parameter values contain no lone surrogates, so str.encode() in get_param_as_json cannot fail (WSGI: latin-1 tunnelled text; ASGI: decoded bytes; decode() uses errors="replace")',
+    'ASGI: scope["query_string"] is well-formed UTF-8 (the ASGI spec says percent-encoded ASCII).  Outside the assumption the constructor does `scope["query_string"].decode()` '
+    'with the strict handler: b"\\xff" raises UnicodeDecodeError during falcon.asgi.Request construction (observation, not part of the proof)',
+    '`store` is any object with __setitem__; every write is recorded',
+    'the query string handed to parse_query_string is a str (WSGI environ / ASGI decoded bytes)',
+]
+NOT_DECIDED = [
+    'parse_query_string for MORE than three "&"-separated fields, and (quick tier) three fields together with comma lists; a comma list has at most three elements with one field and '
+    'two elements with two or three fields (thorough tier: three fields, first two values up to two elements, third value one element).  Every branch of the loop body is exercised; the '
+    'induction over the number of fields (loop invariant params == fold(step, fields[:i]) over a symbolic-length field list) is not done',
+    'the round trip parse_query_string(to_query_str(d)) == d: needs induction over strings and the decode/encode_value inverse law; only the bounded stand-in bounded() exercises it.  '
+    'Boundary found there (not counted as a defect): a mapping with the EMPTY name and an empty value (or an empty element when lists are rendered as repeated names) renders as "=" '
+    'which the reference reading drops; one-element lists, [] and non-str values are outside the image of the parser and do not come back either',
+    'what decode computes (percent/plus decoding as UTF-8, malformed escapes kept literally): C10; here uninterpreted, and compared with an independent reference only in bounded()',
+    'falcon/cyutil/uri.pyx (Cython twin of decode / parse_query_string): Cython syntax is out of reach of the ast-based executor and it cannot be rebuilt offline; deployments that load the '
+    'compiled twin run code this contract has not seen (bounded() reports which implementation it exercised: the source-only overlay loads the pure-Python one)',
+    'get_param_as_datetime / get_param_as_date with a caller-supplied format_string other than the two defaults (strptime is opaque per format)',
+    'get_param_as_json passes content_length=len(param_value) (characters, not bytes) to the handler: not part of the statement, not checked',
+    'URLEncodedFormHandler._deserialize (same parser, options from the handler): covered by C12',
+    'the empty list in `_params` for scalar getters: beyond "only 400-class errors escape" nothing is specified (the statement does not say whether `a=,` is "absent" or "blank")',
+]
+TRUSTED = [
+    'structured query strings in contracts/C08_query.py (QueryString, Field, mk_value, _split_model): a query string is built as "&".join(fields), field = name | name "=" value, '
+    'value = ",".join(elements) from separator-free symbolic atoms, and str.split / str.partition / `"+" in s` / `"%" in s` on exactly these joined strings are answered from the '
+    'construction (split and partition are the inverses of joining separator-free pieces; a character other than the separators occurs in the join iff it occurs in a piece).  '
+    'Cross-checked by bounded() against str.split / str.partition of CPython on every string up to length 4 (quick) / 5 (thorough)',
+    'ghost stubs in contracts/C08_query.py: Store, Doc, Converted, JsonHandler, MediaHandlers, Options, Transform, ParserProbe, BodyStream, GhostBytesIO',
+    'conversion models in contracts/C08_query.py: m_int_of_str, m_float (class SFloat), m_uuid, m_strptime, _codec / _codec_utf8 (utf-8 encode/decode as uninterpreted total functions)',
+    'opaque dependencies are substituted by rebinding the module-level name in the overlay module while the subject runs (class `patched`): falcon.request._DEFAULT_JSON_HANDLER, '
+    'falcon.request.parse_query_string, falcon.asgi.request.parse_query_string',
+    'pyvc/interp.py setitem: a store under a symbolic key into a concrete dict creates a new entry once the key has been compared unequal to every existing key on the path',
+]
 KILLS = [
     # --- parser -------------------------------------------------------------------------------------------------
     # split at the LAST '=' instead of the first
